@@ -29,13 +29,19 @@ m = {
         "add_only": True,
     },
     "engines": [
+        {"name": "smt-z3-cvc5", "path": "bin/c14stage.py", "serves_properties": ["C14"],
+         "kind_free_text": "SMT-LIB encoding regenerated from /repo's source on every run, decided by z3 and cross-checked with cvc5; tied to the real functions by exhaustive native replay"},
         {"name": "kani-cbmc", "path": "bin/check", "serves_properties": sorted(k for k, v in props.PROPS.items() if v.get("ready", True)),
          "kind_free_text": "bounded model checking of the compiled Rust code (Kani 0.68 -> GOTO -> CBMC 6.11 / CaDiCaL), "
                            "native replay of counterexamples"},
     ],
     "checks": [],
-    "notes": "Every check: exit 0 held / exit 1 VIOLATION (replay-confirmed against /repo, not a listed finding) / exit 2 inconclusive. "
-             "Known findings: known_findings.jsonl.",
+    "notes": "Every check: exit 0 held / exit 1 VIOLATION (replay-confirmed natively against /repo, not a listed finding) / exit 2 inconclusive. "
+             "known_findings.jsonl lists nine defects found on the pinned tree, all repaired by fix: commits in /repo (entries are 'fixed', nothing is suppressed). "
+             "Partial claims, stated in each check's evidence and in DESIGN.md 6 / 9.4: C18 decides the k-mer/bincode quarter only (JSON not applicable, owned "
+             "sequences not reached); C19 decides conversions and symbol maps, trimming is exercised on concrete inputs only; C12 decides borrowed |/& on one-symbol "
+             "operands in quick (two symbols in thorough) plus owned operands and contains; C16/C17 decide the data dimension per generated program, the program "
+             "dimension is a generated family; C06/C01 cover histories / long inputs by a single inductive step. C15 is not applicable (std HashMap).",
     "not_applicable": [],
 }
 for pid in ALL:
@@ -47,11 +53,11 @@ for pid in ALL:
             "thorough_cmd": "bin/check %s --tier thorough" % pid,
             "evidence_file": "evidence/%s.json" % pid,
             "replay_cmd_template": "bin/check %s --replay {path}" % pid,
-            "engine": "kani-cbmc",
+            "engine": P.get("engine", "kani-cbmc"),
             "level_claimed": {"category": P.get("level", "model_checking"),
                               "text": P.get("level_text", "bounded model checking: the solver decides each harness assertion for all values "
                                             "of the symbolic inputs within the stated bounds; unwinding assertions on"),
-                              "design_ref": "DESIGN.md section 4 (%s)" % pid},
+                              "design_ref": "DESIGN.md sections 4 (%s, plan) and 9.4 (as built)" % pid},
             "level_note": P.get("level_note", "trusted: Kani/CBMC/CaDiCaL, the vendored flat-span bitvec model (validated by the repo "
                                               "suite + differential test), the oracle tables; memory safety of unsafe blocks not claimed"),
             "technique": P.get("technique", "Kani/CBMC bounded model checking of the real code with symbolic inputs; native replay of counterexamples"),
